@@ -13,6 +13,7 @@ import (
 	"runtime/debug"
 	"sort"
 	"strings"
+	"sync"
 
 	"github.com/bytemare/secp256k1/zz_verif/gen"
 )
@@ -295,4 +296,67 @@ func firstLines(s string, n int) string {
 	}
 
 	return strings.Join(l, "\n")
+}
+
+// RunConcurrent executes the jobs simultaneously, one goroutine each, released together, each job reps times. A job
+// returns "" when what it observed agrees with the expectation it computed beforehand (jobs must only touch objects
+// they own: concurrency on shared arguments is the subject of C16, not of this helper). Wrong results under
+// simultaneous execution expose package-level scratch state even in properties that are not about concurrency.
+func (c *Ctx) RunConcurrent(what, key string, reps int, jobs []func() string) bool {
+	type res struct {
+		msg string
+		pan any
+	}
+
+	out := make([]res, len(jobs))
+	start := make(chan struct{})
+
+	var wg sync.WaitGroup
+
+	for i, j := range jobs {
+		wg.Add(1)
+
+		go func(i int, j func() string) {
+			defer wg.Done()
+			defer func() {
+				if r := recover(); r != nil {
+					out[i].pan = r
+				}
+			}()
+			<-start
+
+			for rep := 0; rep < reps; rep++ {
+				if m := j(); m != "" {
+					out[i].msg = m
+					return
+				}
+			}
+		}(i, j)
+	}
+
+	close(start)
+	wg.Wait()
+
+	c.Res.Counters["concurrent-batches"]++
+	c.Res.Counters["concurrent-calls"] += int64(reps * len(jobs))
+	c.Eval(reps * len(jobs))
+
+	for i, r := range out {
+		if r.pan != nil {
+			if s, ok := r.pan.(string); ok && strings.HasPrefix(s, "harness:") {
+				panic(s)
+			}
+
+			c.Fail(fmt.Sprintf("%s panicked when %d goroutines ran simultaneously on objects they own (job %d): %v", what, len(jobs), i, r.pan), key+"-panic", nil)
+
+			return false
+		}
+
+		if r.msg != "" {
+			c.Fail(fmt.Sprintf("%s is wrong when %d goroutines run simultaneously on objects they own (job %d): %s", what, len(jobs), i, r.msg), key, nil)
+			return false
+		}
+	}
+
+	return true
 }
